@@ -320,6 +320,8 @@ class SequenceOfValuesColumn(MafCustomColumnRecord):
         for i, value in enumerate(self.value):
             column = column_cls("", value)  # create a new column to validate
             msg = column.__validate__()
+            if not msg and isinstance(value, str) and ";" in value:
+                msg = "the value contains the list separator ';'"
             if msg:
                 return "For the %dth value in '%s': %s" % (i + 1, str(self.value), msg)
         return None
